@@ -107,13 +107,17 @@ def run_shard(shard, ctx):
                       "casing": casing, "extras": 1}, ctx)
             run_case({"kind": "vmx", "devs": [[bus, 0, 0, "cdrom-image", "was-cd.vmdk"], [bus, 0, 0, "", "now-disk.vmdk"]],
                       "casing": casing, "extras": 0}, ctx)
+            # unrelated entries that begin like a bus name
+            for devs in ([], [[bus, 0, 0, None, "a.vmdk"]], [[bus, 0, 1, "disk", "a.vmdk"], ["ide", 1, 0, "cdrom-image", "cd.iso"]]):
+                run_case({"kind": "vmx", "devs": devs, "casing": casing, "extras": 4}, ctx)
     elif kind == "vmx-chars":
         # every character that some line-splitting or whitespace-trimming routine treats specially, at every position of a
         # disk file name and of a second, non-disk value; the only line separator of the format is LF
-        for ch, where, bus, typ in itertools.product(SPECIAL_CHARS, ("start", "middle", "end", "twice"), ("scsi", "nvme"),
+        for ch, where, bus, typ in itertools.product(SPECIAL_CHARS, ("start", "middle", "end", "twice", "spaced"), ("scsi", "nvme"),
                                                      (None, "disk", "cdrom-image")):
             name = {"start": ch + "disk.vmdk", "middle": "my old disk" + ch + "copy-f002.vmdk", "end": "disk.vmdk" + ch,
-                    "twice": "a" + ch + "b" + ch + "scsi0:1.fileName = \"x.vmdk"}[where]
+                    "twice": "a" + ch + "b" + ch + "scsi0:1.fileName = \"x.vmdk",
+                    "spaced": "Data Disk " + ch + "2 " + ch + " copy.vmdk"}[where]
             run_case({"kind": "vmx", "devs": [[bus, 0, 0, typ, name], ["sata", 1, 1, None, "plain.vmdk"]], "casing": "camel",
                       "extras": 2}, ctx)
     elif kind == "pvs-large":
@@ -179,6 +183,9 @@ EXTRA_BLOCKS = [
      'ethernet0.virtualDev = "e1000"', 'displayName = "disk.vmdk"', 'nvram = "vm.nvram"', 'extendedConfigFile = "vm.vmxf"'],
     ['# scsi9:9.fileName = "commented.vmdk"', "", '   ', '#', 'serial0.fileName = "serial.vmdk"', 'usb.present = "TRUE"',
      'scsi0.sasWWID = "50 05 05 68 05 82 7f 70"'],
+    # unrelated entries whose names merely begin like a bus name (no device, no property)
+    ['ideas = "none"', 'scsiEmulation = "TRUE"', 'sataMode = "ahci"', 'nvmeOverFabric = "FALSE"', 'scsi = "yes"', 'IDE = "x"',
+     'nvme0 = "present"', 'sata0:1 = "y"'],
 ]
 
 
@@ -519,6 +526,12 @@ def _ovf_cases(max_files):
                             for ids in ((0, 1) if (ni and nd) else (0,)):
                                 yield {"kind": "ovf", "files": nf, "disks": list(refs), "items": [list(i) for i in items],
                                        "ns": ns, "ids": ids}
+                                # disks without a backing file (an empty disk to be created at deployment) and drives without
+                                # a host resource (an empty drive): neither contributes a backing file
+                                if ni <= 1 or j % 21 == 0:
+                                    for empty in ("disk-first", "disk-last", "drive-first", "drive-last", "both"):
+                                        yield {"kind": "ovf", "files": nf, "disks": list(refs), "items": [list(i) for i in items],
+                                               "ns": ns, "ids": ids, "empty": empty}
 
 
 def _do_ovf(case):
@@ -543,9 +556,19 @@ def _do_ovf(case):
     for i in range(nf):
         x.append(f'  <{e}File {a}id="{fid(i)}" {a}href="{files[i]}"/>')
     x += [f" </{e}References>", f" <{e}DiskSection>", f"  <{e}Info>disks</{e}Info>"]
+    empty = case.get("empty", "")
+    empty_disk = f'  <{e}Disk {a}capacity="2048" {a}diskId="emptydisk"/>'
+    empty_drive = [f"   <{e}Item>", f"    <{r}ElementName>empty drive</{r}ElementName>", f"    <{r}InstanceID>99</{r}InstanceID>",
+                   f"    <{r}ResourceType>17</{r}ResourceType>", f"   </{e}Item>"]
+    if empty in ("disk-first", "both"):
+        x.append(empty_disk)
     for i, ref in enumerate(refs):
         x.append(f'  <{e}Disk {a}capacity="1024" {a}diskId="{did(i)}" {a}fileRef="{fid(ref)}"/>')
+    if empty == "disk-last":
+        x.append(empty_disk)
     x += [f" </{e}DiskSection>", f' <{e}VirtualSystem {a}id="vm">', f"  <{e}VirtualHardwareSection>"]
+    if empty in ("drive-first", "both"):
+        x += empty_drive
     targets = [("disk", i) for i in range(len(refs))] + [("file", i) for i in range(nf)]
     exp = []
     for n, (rt, ti, form) in enumerate(items):
@@ -557,6 +580,8 @@ def _do_ovf(case):
               f"    <{r}InstanceID>{n + 3}</{r}InstanceID>", f"    <{r}ResourceType>{rt}</{r}ResourceType>", f"   </{e}Item>"]
         if rt == 17:
             exp.append(files[refs[tidx]] if tk == "disk" else files[tidx])
+    if empty == "drive-last":
+        x += empty_drive
     x += [f"  </{e}VirtualHardwareSection>", f" </{e}VirtualSystem>", f"</{e}Envelope>"]
     o = OVF(io.StringIO("\n".join(x)))
     if shared and len({did(i) for i in range(len(refs))}) < len(refs):
